@@ -79,19 +79,83 @@ def run(chk, prog, tier):
     bad = 0
     n_cbfail = 0
     b_cbfail = 0
+    # Part A: everything between the callback and the signature check (claims, policy), signature check summarised
+    def h_verify_sig_summary(it, st, args, node):
+        jwt = args[0]
+        s1 = st.clone()
+        if isinstance(jwt, Ref):
+            st.mem[(jwt.loc, 'error')] = Int(1)
+            st.mem[(jwt.loc, 'error_msg#')] = 'nonempty'
+        return [(s1, jwt), (st, jwt)]
+    runs = []
+
+    def claims_summary_taint(rule):
+        def h(it, st, args, node):
+            jwt = args[0]
+            rule.uses_checked += 1
+            if isinstance(jwt, Ref):
+                v = it.load(st, jwt.loc, 'claims')
+                if rule._is_tainted(st, v):
+                    rule.viol.append(('use', '__verify_claims', node_loc(node), list(it.frames) + ['__verify_claims']))
+            return H.h_verify_claims_summary(it, st, args, node)
+        return h
+    # Part A2: the claim evaluation itself reads only jwt->claims (and the checker's expected values): headers stay untouched
+    ruleA2 = TaintRule()
+    itA2 = Interp(prog, 'libjwt/jwt-verify.c', model=model, rule=ruleA2, budget=900000, hooks=H.std_hooks(env))
+    stA2 = State()
+    jw = ('obj', 'jwt')
+    ckr = ('obj', 'checker')
+    stA2.zero.add(jw)
+    stA2.mem[(jw, 'claims')] = Ref(('obj', 'snapshot_claims'))
+    stA2.mem[(jw, 'headers')] = Ref(('obj', 'headers_tree'))
+    stA2.mem[(jw, 'checker')] = Ref(ckr)
+    stA2.mem[(ckr, 'c.payload')] = Ref(('obj', 'expected_claims'))
+    stA2.ts['tainted'] = {('obj', 'headers_tree')}
+    stA2.ts['jwt_obj'] = jw
+    itA2.run('__verify_claims', [Ref(jw)], stA2)
+    runs.append((ruleA2, itA2, [], None))
+    for keymode in ('none', 'sym'):
+        rule = TaintRule()
+        it = Interp(prog, unit, model=model, rule=rule, budget=1500000,
+                    hooks=H.std_hooks(env, extra={'jwt_verify_sig': h_verify_sig_summary, '__verify_claims': claims_summary_taint(rule)}))
+        st = State()
+        o = H.common_obj(st, 'checker', False)
+        H.set_cb(st, o, True)
+        H.set_key(st, o, env, keymode)
+        H.bind_provider(st, H.providers(prog)[0])
+        res = it.run('jwt_checker_verify', [Ref(o), Term(('token',), ptr=True)], st)
+        if not rule.cb_calls:
+            raise AnalysisBroken('the callback is never invoked by jwt_checker_verify')
+        runs.append((rule, it, res, o))
+    # Part B: the signature check itself, per provider, entered with the token's trees already callback-mutable
     for provider in H.providers(prog):
-        for keymode in ('none', 'sym'):
-            rule = TaintRule()
-            it = Interp(prog, unit, model=model, rule=rule, budget=900000, hooks=H.std_hooks(env))
-            st = State()
-            o = H.common_obj(st, 'checker', False)
-            H.set_cb(st, o, True)
-            H.set_key(st, o, env, keymode)
-            # claims configuration symbolic: every claim check may be enabled
-            H.bind_provider(st, provider)
-            res = it.run('jwt_checker_verify', [Ref(o), Term(('token',), ptr=True)], st)
-            if not rule.cb_calls:
-                raise AnalysisBroken('the callback is never invoked by jwt_checker_verify')
+        if provider == 'mbedtls':
+            continue
+        rule = TaintRule()
+        it = Interp(prog, 'libjwt/jwt.c', model=model, rule=rule, budget=1500000, hooks=H.std_hooks(env))
+        st = State()
+        jwt = ('obj', 'jwt')
+        st.zero.add(jwt)
+        a = Term(('mem', jwt, 'alg'))
+        st.mem[(jwt, 'alg')] = a
+        st.dom[a.k] = tuple(env.all_alg_vals)
+        ko = ('obj', 'key')
+        st.mem[(jwt, 'key')] = Ref(ko)
+        for f in ('provider_data', 'pem', 'oct.key'):
+            t = Term(('mem', ko, f), ptr=True)
+            st.ptrfact[t.k] = 'nonnull'
+            st.mem[(ko, f)] = t
+        cl, hd = ('obj', 'claims_tree'), ('obj', 'headers_tree')
+        st.mem[(jwt, 'claims')] = Ref(cl)
+        st.mem[(jwt, 'headers')] = Ref(hd)
+        st.mem[(cl, 'type')] = Int(0)
+        st.mem[(hd, 'type')] = Int(0)
+        st.ts['tainted'] = {cl, hd}
+        st.ts['jwt_obj'] = jwt
+        H.bind_provider(st, provider)
+        res = it.run('jwt_verify_sig', [Ref(jwt), Term(('head',), ptr=True), Term(('head_len',)), Term(('sig',), ptr=True)], st)
+        runs.append((rule, it, [], None))
+    for rule, it, res, o in runs:
             total += rule.uses_checked
             seen = set()
             for kind, what, (f, l), frames in rule.viol:
